@@ -147,7 +147,13 @@ def resolve_case(case):
         inst = K(args, unique_keys=uk)
     except Exception as e:
         return {"ctor_raises": True, "exc": type(e).__name__}
-    obs = {"ctor_raises": False, "by_index": [], "by_name": []}
+    obs = {"ctor_raises": False, "by_index": [], "by_name": [], "unev": []}
+    for j in range(n):
+        try:
+            v = inst.arg(variables, j, evaluate=False)
+            obs["unev"].append("expr" if isinstance(v, Expr) else "value")
+        except Exception as e:
+            obs["unev"].append("raise:" + type(e).__name__)
     for j in range(n):
         for how, idx in (("by_index", j), ("by_name", names[j])):
             try:
@@ -183,6 +189,9 @@ def judge_resolve(case, obs):
                             {"observed": o, "expected": e, "index": j}))
         if e["src"] == "raise":
             full = False
+        elif obs["unev"][j] != exp["unev"][j]:
+            bad.append(({"clause": "evaluate=False", "src": e["src"]},
+                        {"observed": obs["unev"][j], "expected": exp["unev"][j], "index": j}))
     if full and obs["all_args"] != [e["v"] for e in exp["res"]]:
         bad.append(({"clause": "all_args"}, {"observed": obs["all_args"], "expected": [e["v"] for e in exp["res"]]}))
     return bad
@@ -193,20 +202,37 @@ _OPS = {"add": operator.add, "sub": operator.sub, "mul": operator.mul, "div": op
         "pow": operator.pow}
 
 
-def build_tree(t):
+_DEFAULT_FORM = {"i": "int", "s": "str"}
+
+
+def build_tree(t, form=None, left=False):
+    """form: how raw operands are spelled ({'i': 'int'|'float', 's': ..., 's_left': ...}); a raw name on
+    the LEFT of an operator uses the 's_left' spelling (there the other library's operator would run)"""
     from chempy.util._expr import Constant, Symbol
+    form = form or _DEFAULT_FORM
     k = t["k"]
     if k == "C":
         return Constant(t["v"])
     if k == "S":
         return Symbol(unique_keys=(t["name"],))
     if k == "i":
-        return int(t["v"])
+        return float(t["v"]) if form["i"] == "float" else int(t["v"])
     if k == "s":
+        if (form.get("s_left", form["s"]) if left else form["s"]) == "sympy.Symbol":
+            import sympy
+            return sympy.Symbol(t["name"])
         return str(t["name"])
     if k == "neg":
-        return -build_tree(t["a"])
-    return _OPS[k](build_tree(t["a"]), build_tree(t["b"]))
+        return -build_tree(t["a"], form)
+    return _OPS[k](build_tree(t["a"], form, left=True), build_tree(t["b"], form))
+
+
+def _has_raw(t):
+    if t["k"] in ("i", "s"):
+        return True
+    if t["k"] in ("C", "S"):
+        return False
+    return _has_raw(t["a"]) or (t["k"] != "neg" and _has_raw(t["b"]))
 
 
 def project_struct(e):
@@ -254,9 +280,18 @@ def eval_tree(expr, env, mode):
 
 
 def algebra_case(case):
+    """-> obs for the plain spelling, plus obs['alt'] for every further spelling of the raw operands"""
+    forms = case["in"].get("rawforms") or [_DEFAULT_FORM]
+    obs = _algebra_form(case, forms[0])
+    if len(forms) > 1 and _has_raw(case["in"]["tree"]):
+        obs["alt"] = [dict(_algebra_form(case, f), form=f) for f in forms[1:]]
+    return obs
+
+
+def _algebra_form(case, form):
     """-> obs: per mode, per env: value as ['q', n, d] | ['f', float] | ['raise', cls]"""
     try:
-        expr = build_tree(case["in"]["tree"])
+        expr = build_tree(case["in"]["tree"], form)
     except Exception as e:
         return {"build": _exc(e)}
     obs = {"struct": None, "vals": {}}
@@ -283,6 +318,14 @@ def algebra_case(case):
 
 
 def judge_algebra(case, obs):
+    bad = _judge_algebra_form(case, obs)
+    for alt in obs.get("alt", []):
+        tag = "%s/%s" % (alt["form"]["i"], alt["form"]["s"])
+        bad += [(dict(k, rawform=tag), d) for k, d in _judge_algebra_form(case, alt)]
+    return bad
+
+
+def _judge_algebra_form(case, obs):
     if "build" in obs:
         return [({"clause": "build", "exc": obs["build"]["raised"]}, {"observed": obs["build"], "expected": "an Expr"})]
     bad = []
@@ -350,6 +393,8 @@ class _Law(object):
         if c["args_absent"]:
             return None
         names = c["argnames"][:min(len(c["argnames"]), c["ngiven"])]
+        if c.get("argform") == "dict":
+            return {n: self.val(n, c["args"][n]) for n in names}
         return [self.val(n, c["args"][n]) for n in names]
 
     def unique_keys(self):
@@ -411,6 +456,15 @@ class _Law(object):
         rxn = _reaction(order)
         fns = {}
 
+        def inst(K):
+            """K(args, unique_keys), or the alternative constructor K.fk(*keys) when there are no args;
+            dict-form arguments are keyed by the class's own argument_names (by position)"""
+            if args is None:
+                return K.fk(*uk)
+            if isinstance(args, dict):
+                return K(dict(zip(K.argument_names, [args[n] for n in c["argnames"]])), uk)
+            return K(args, uk)
+
         def rate_fns(ma, param_for_reaction=None):
             rx = _reaction(order, ma if param_for_reaction is None else param_for_reaction)
             kc = float(_num(c["companion_k"]))
@@ -426,11 +480,46 @@ class _Law(object):
 
         if cls in ("MassAction", "Arrhenius", "Eyring", "EyringHS"):
             inner = {"Arrhenius": R.Arrhenius, "Eyring": R.Eyring, "EyringHS": R.EyringHS}.get(cls)
-            rate_fns(R.MassAction(args, uk) if inner is None else R.MassAction(inner(args, uk)))
+            rate_fns(inst(R.MassAction) if inner is None else R.MassAction(inst(inner)))
+            return fns
+        if cls == "MassActionCallback":
+            def arrh(a, T, backend=math, **kw):
+                return a[0] * backend.exp(-a[1] / T)
+            factory = R.MassAction.from_callback(arrh, parameter_keys=("temperature",), argument_names=("A", "Ea_over_R"))
+            rate_fns(factory(args, uk))       # dict form: the factory's argument_names are the case's
+            return fns
+        if cls in ("MA_mul_num", "MA_rmul_num", "MA_div_num", "MA_mul_expr", "MA_rmul_expr"):
+            k0, f = self.val("k", c["args"]["k"]), float(_num(c["args"]["f"]))
+            ma0 = R.MassAction([k0])
+            ma = {"MA_mul_num": lambda: ma0 * f, "MA_rmul_num": lambda: f * ma0, "MA_div_num": lambda: ma0 / f,
+                  "MA_mul_expr": lambda: ma0 * X.Constant(f), "MA_rmul_expr": lambda: X.Constant(f) * ma0}[cls]()
+            rate_fns(ma)
+            return fns
+        if cls == "CallbackPoly":
+            from functools import reduce
+            from operator import add
+
+            def poly(a, x, backend=math):      # the docstring example of Expr.from_callback
+                x0 = a[0]
+                return reduce(add, [cf * (x - x0) ** i for i, cf in enumerate(a[1:])])
+            Poly = X.Expr.from_callback(poly, parameter_keys=("x",), argument_names=("x0", Ellipsis))
+            expr_fn(Poly(args, uk))
+            return fns
+        if cls == "EqCallback":
+            def gibbs(a, T, backend=math, **kw):
+                return backend.exp(a[1] - a[0] / T)
+            K = TE.MassActionEq.from_callback(gibbs, parameter_keys=("temperature",),
+                                              argument_names=("dH_over_R", "dS_over_R"))
+            expr_fn(inst(K))
+            return fns
+        if cls == "PiecewiseNum":
+            a = [self.val(n, c["args"][n]) for n in c["argnames"]]
+            PW = X.create_Piecewise("temperature", nan_fallback=False)
+            expr_fn(PW(a))
             return fns
         if cls in ("Radiolytic", "RadiolyticAB"):
             K = R.Radiolytic if cls == "Radiolytic" else R.mk_Radiolytic("alpha", "beta")
-            expr_fn(K(args, uk), reaction=rxn)
+            expr_fn(inst(K), reaction=rxn)
             return fns
         polys = {"TPoly": PR.TPoly, "RTPoly": PR.RTPoly, "ShiftedTPoly": PR.ShiftedTPoly,
                  "ShiftedRTPoly": PR.ShiftedRTPoly, "Log10TPoly": PR.Log10TPoly,
@@ -446,11 +535,11 @@ class _Law(object):
             expr_fn(PR.TPiecewise([a["lo"], PR.TPoly([a["p0"], a["p1"]]), a["mid"], PR.TPoly([a["q0"], a["q1"]]), a["hi"]]))
             return fns
         if cls in ("RampedTemp", "SinTemp"):
-            expr_fn(getattr(R, cls)(args, uk))
+            expr_fn(inst(getattr(R, cls)))
             return fns
         if cls in ("MassActionEq", "EqEquation"):
             from chempy import Equilibrium
-            obj = TE.MassActionEq(args, uk)
+            obj = inst(TE.MassActionEq)
             eq = Equilibrium({"X": 1}, {"Y": 2}, obj)
             if cls == "MassActionEq":
                 expr_fn(obj)
@@ -458,7 +547,7 @@ class _Law(object):
                 fns["self"] = lambda V: [self.run(lambda v, be: obj.equilibrium_equation(v, backend=be, equilibrium=eq), V)]
             return fns
         if cls == "GibbsEqConst":
-            expr_fn(TE.GibbsEqConst(args, uk))
+            expr_fn(inst(TE.GibbsEqConst))
             return fns
         # ---- parameter sets (namedtuples with __call__(T, backend=...))
         a = {n: self.val(n, c["args"][n]) for n in c["argnames"]}
@@ -476,6 +565,17 @@ class _Law(object):
         if cls == "ArrheniusParam":
             p = (AR.ArrheniusParamWithUnits if self.units else AR.ArrheniusParam)(a["A"], a["Ea"])
             fns["self"] = lambda V: [call_param(p, V)]
+            return fns
+        if cls in ("ArrheniusParts", "EyringParts"):
+            from chempy.units import default_constants as dc, default_units as du, Backend
+            cu = (dc, du) if self.units else (None, None)
+            if cls == "ArrheniusParts":
+                p = (AR.ArrheniusParamWithUnits if self.units else AR.ArrheniusParam)(a["A"], a["Ea"])
+                fns["self"] = lambda V: [p.Ea_over_R(*cu)]
+            else:
+                p = (EY.EyringParamWithUnits if self.units else EY.EyringParam)(a["dH"], a["dS"])
+                be = Backend() if self.units else math
+                fns["self"] = lambda V: [p.kB_h_times_exp_dS_R(cu[0], cu[1], be), p.dH_over_R(*cu)]
             return fns
         if cls == "EyringParam":
             p = (EY.EyringParamWithUnits if self.units else EY.EyringParam)(a["dH"], a["dS"])
@@ -534,26 +634,41 @@ def _snapshot(V):
 
 
 def _fit_obs(case):
-    """linearised fits on the exact synthetic data of the case -> observations keyed by variant"""
+    """fits / regressions on the exact synthetic data of the case, once per variant the case lists"""
     import numpy as np
-    from chempy.kinetics.arrhenius import fit_arrhenius_equation
+    from chempy.kinetics.arrhenius import fit_arrhenius_equation, ArrheniusParam
     from chempy.kinetics.eyring import fit_eyring_equation
-    from chempy.util.regression import least_squares
+    from chempy.util.regression import least_squares, irls, least_squares_units
+    from chempy.units import default_units as u, to_unitless
     c = case["in"]
     x = np.array([float(terms.eval_term(t, {}, prec=30)) for t in c["data_x"]])
     y = np.array([float(terms.eval_term(t, {}, prec=30)) for t in c["data_y"]])
+    errs = {"kerr=None": None, "kerr=1%": 0.01 * y, "kerr=mixed": y * np.linspace(0.01, 0.2, len(y)),
+            "nonlinear": None, "nonlinear-kerr": 0.01 * y, "from_fit_of_data": 0.01 * y}
+    weights = {"ols": None, "weighted": np.full(len(y), 4.0), "weighted-mixed": np.linspace(0.5, 2.0, len(y))}
     out = {}
-    variants = {"kerr=None": None, "kerr=1%": 0.01 * y, "kerr=mixed": y * np.linspace(0.01, 0.2, len(y))}
-    for tag, kerr in variants.items():
+    for tag in c["variants"]:
         try:
-            if c["cls"] == "FitArrhenius":
-                r = fit_arrhenius_equation(x, y, kerr, linearized=True)
-            elif c["cls"] == "FitEyring":
-                r = fit_eyring_equation(x, y, kerr, linearized=True)
-            else:
-                w = {"kerr=None": None, "kerr=1%": np.full(len(y), 4.0), "kerr=mixed": np.linspace(0.5, 2.0, len(y))}[tag]
-                beta, vcv, r2 = least_squares(x, y) if w is None else least_squares(x, y, w)
-                r = beta
+            import warnings
+            with warnings.catch_warnings():
+                warnings.simplefilter("ignore")
+                if c["cls"] in ("FitArrhenius", "FitEyring"):
+                    fit = fit_arrhenius_equation if c["cls"] == "FitArrhenius" else fit_eyring_equation
+                    if tag == "from_fit_of_data":
+                        p = ArrheniusParam.from_fit_of_data(x, y, errs[tag])
+                        r = [p.A, p.Ea]
+                    elif tag.startswith("nonlinear"):
+                        r, pcov = fit(x, y, errs[tag], linearized=False)
+                    else:
+                        r = fit(x, y, errs[tag], linearized=True)
+                elif tag == "irls":
+                    r, cov, info = irls(x, y)
+                elif tag == "units":
+                    beta, vcv, r2 = least_squares_units(x * u.second, y * u.metre)
+                    r = [to_unitless(beta[0], u.metre), to_unitless(beta[1], u.metre / u.second)]
+                else:
+                    w = weights[tag]
+                    r, vcv, r2 = least_squares(x, y) if w is None else least_squares(x, y, w)
             out[tag] = [float(v) for v in r]
         except Exception as e:
             out[tag] = _exc(e)
@@ -624,6 +739,14 @@ def judge_laws(case, obs):
         return bad
     if "raise" in obs:
         return [({"clause": "raises", "exc": obs["raise"]["raised"], "step": 0}, {"observed": obs, "expected": "a value"})]
+    if exp.get("raises"):
+        # evaluation must be refused at every step (any exception class), and the store stays untouched
+        for n, st in enumerate(obs["steps"], 1):
+            if "raise" not in st:
+                bad.append(({"clause": "missing-raise", "step": n}, {"observed": st, "expected": {"raises": True}}))
+        if obs["changed"] or obs["store_keys_changed"]:
+            bad.append(({"clause": "frame"}, {"observed": obs["changed"], "expected": "variables unchanged"}))
+        return bad
     for n, (st, est) in enumerate(zip(obs["steps"], exp["steps"]), 1):
         key = {"step": n, "who": est["who"], "hist": "-".join(case["in"]["hist"])}
         if "raise" in st:
@@ -712,17 +835,58 @@ def _nontrivial(case):
     return True
 
 
-SLICES_Q = [("resolve_q", ["SetClass", "GenArgs", "GenKeys", "GenVars", "GenResolve"], 1000),
-            ("algebra_q", ["GenLeaf", "GenOp", "GenNeg", "FinishTree"], 1600),
-            ("laws_q", ["ChooseLaw", "GenPset", "GenTemp", "Evaluate", "GenStep", "GenFinishHist"], 3000)]
+SLICES_Q = [("resolve_q", ["SetClass", "GenArgs", "GenKeys", "GenVars", "GenResolve"], 700),
+            ("algebra_q", ["GenLeaf", "GenOp", "GenNeg", "FinishTree"], 700),
+            ("laws_q", ["ChooseLaw", "GenPset", "GenTemp", "Evaluate", "GenStep", "GenFinishHist"], 2300)]
 SLICES_T = [("resolve_t", [], None), ("algebra_t", [], 40000), ("algebra_t4", [], 40000), ("laws_t", [], None)]
+
+
+def _tlc_all(ctx, slices):
+    """run the slices' TLC configs concurrently (they are independent), then do the accounting and the
+    vacuity checks of core.Context.tlc in the main thread, slice by slice"""
+    import concurrent.futures
+    import core
+    import tlc as _tlc
+
+    def one(item):
+        sl, acts, nsel = item
+        try:
+            return _tlc.run_tlc("ExprTree_MC", "ExprTree_MC_%s.cfg" % sl, coverage=bool(acts), timeout=2400,
+                                workers=8 if ctx.quick else 16)
+        except _tlc.TLCError as e:
+            return e
+    # thorough outputs are hundreds of MB each: one at a time there
+    with concurrent.futures.ThreadPoolExecutor(max_workers=len(slices) if ctx.quick else 1) as ex:
+        results = list(ex.map(one, slices))
+    out = {}
+    for (sl, acts, nsel), res in zip(slices, results):
+        cfg = "ExprTree_MC_%s.cfg" % sl
+        if isinstance(res, Exception):
+            raise core.MachineryFailure(str(res))
+        ctx.states += res.distinct
+        ctx.transitions += res.generated
+        ctx.tlc_runs.append(dict(module="ExprTree_MC", cfg=cfg, **res.summary()))
+        for a in acts:
+            t = sum(res.coverage.get(n, (0, 0))[1] for n in {a, a[3:] if a.startswith("Gen") else a})
+            ctx.coverage_actions["ExprTree_MC!%s" % a] = t
+            if t == 0:
+                raise core.MachineryFailure("vacuity: action %s of ExprTree_MC never taken under %s" % (a, cfg))
+        if len(res.cases) < 100:
+            raise core.MachineryFailure("vacuity: ExprTree_MC/%s produced %d cases (< 100)" % (cfg, len(res.cases)))
+        out[sl] = res
+    return out
 
 
 def run(ctx):
     import core
-    for sl, acts, nsel in (SLICES_Q if ctx.quick else SLICES_T):
-        res = ctx.tlc("ExprTree_MC", "ExprTree_MC_%s.cfg" % sl, require_actions=acts, require_cases=100, timeout=2400)
-        sel = ctx.pick(res.cases, nsel)
+    slices = SLICES_Q if ctx.quick else SLICES_T
+    tlc_results = _tlc_all(ctx, slices)
+    for sl, acts, nsel in slices:
+        res = tlc_results.pop(sl)
+        # TLC prints cases in a worker-dependent order: sort first so that the sample depends on the seed only;
+        # the handful of fit / regression cases is always replayed
+        cases = sorted(res.cases, key=lambda c: core.stable_hash(c["in"]))
+        sel = ctx.pick(cases, nsel, always=lambda c: c["in"].get("cls") in ("FitArrhenius", "FitEyring", "LeastSquares"))
         outs = ctx.pmap(observe, sel)
         ctx.cases_replayed += len(sel)
         nmodes = {"resolve": 1, "algebra": len(MODES), "laws": 1}
@@ -867,7 +1031,7 @@ def _trace_of(item):
 
 def _trace_direction(ctx):
     import core
-    n = 300 if ctx.quick else 6000
+    n = 200 if ctx.quick else 6000
     items = [_gen_rpn(ctx.rng, 6 if ctx.quick else 8, 5) for _ in range(n)]
     outs = ctx.pmap(_trace_of, items)
     traces = [t for t, o in outs]
